@@ -125,6 +125,14 @@ def programs(draw, tier):
             if s_['op'] == 'await_task':
                 s_['hold'] = draw(st.sampled_from([2, 4, 8]))
         r1['steps'] += [{'op': 'await_task', 'ref': 's0'}, sleep()]
+        if draw(st.booleans()):
+            # ... or it dies of the very exception object that the careful awaiter handed on after handling it
+            for s_ in r1['steps']:
+                if s_['op'] == 'await_task':
+                    s_['store'] = True
+            extra.append({'name': 'r3', 'steps': [{'op': 'sleep', 'd': draw(st.sampled_from([0.5, 1, 2, 3]))}, {
+                'op': 'scope', 'name': 'S3', 'catch': True, 'body': [sleep()], 'children': [
+                    {'name': 'x1', 'steps': [sleep(), {'op': 'raise_saved'}, sleep()]}]}, sleep()]})
         extra.append({'name': 'r2', 'steps': [sleep() for _ in range(draw(st.integers(0, 3)))] + [
             {'op': 'scope', 'name': 'S2', 'catch': True, 'body': [sleep()], 'children': [
                 {'name': 'x0', 'steps': [sleep() for _ in range(draw(st.integers(0, 2)))] + [
@@ -412,7 +420,7 @@ class C06(Check):
                 out.fail('parent', 'scope_raised:%s' % (leave[0][5][0],), 'scope left with %r;%s' % (leave[0][5], ctx))
             cancelled = {n for n, c in calls.items() if any(RANK[x[2]] < 2 for x in c)}
             for a in self._all_names(prog):
-                if a in cancelled or (a == 's0c' and 's0' in cancelled) or a == 'x0':
+                if a in cancelled or (a == 's0c' and 's0' in cancelled) or a in ('x0', 'x1'):
                     continue
                 evs = per.get(a, [])
                 if not any(e[3] == 'end' for e in evs):
@@ -427,7 +435,7 @@ class C06(Check):
                         out.fail('siblings', 'wrong_end_time', '%s ended at %r, model %r;%s' % (a, got, want, ctx))
 
         # --- (g) an awaiter that handles the outcome goes on, whatever other awaiters do with it
-        for a in ('r1', 'r2'):
+        for a in ('r1', 'r2', 'r3'):
             if find_act(prog, a) is not None and oc == 'ok' and not any(e[3] == 'end' for e in per.get(a, [])):
                 out.fail('awaiters', 'careful_awaiter_did_not_go_on', 'activity %s handles every outcome of its awaits but never '
                          'reached its end;%s' % (a, ctx))
